@@ -9,7 +9,7 @@ use servlin::{RequestBody, Response};
 use std::sync::Arc;
 
 #[derive(Clone, Copy, Debug, PartialEq)]
-enum Req { G, S(usize), E(usize), U(usize), C, X, T(usize) }   // T(n): declares n body bytes, sends n-1, then end of stream; GET; sized body; sized + Expect; POST without length (body to end of stream); chunked; malformed
+enum Req { G, S(usize), E(usize), U(usize), C, X, T(usize), Z(usize) }   // Z(n): gzip coding together with a declared length n;   // T(n): declares n body bytes, sends n-1, then end of stream; GET; sized body; sized + Expect; POST without length (body to end of stream); chunked; malformed
 #[derive(Clone, Copy, Debug, PartialEq)]
 enum Op { RR, BV, BF(u64), WC, WR(u16), SW, WD(u16) }   // WD: a response carrying its own content-length field (refused before any byte)
 
@@ -22,6 +22,7 @@ fn req_bytes(r: Req, idx: usize) -> Vec<u8> {
         Req::U(n) => { let mut v = format!("POST /r{idx} HTTP/1.1\r\n\r\n").into_bytes(); v.extend(body_bytes(n, idx)); v }
         Req::C => format!("POST /r{idx} HTTP/1.1\r\ntransfer-encoding: chunked\r\n\r\n3\r\nabc\r\n0\r\n\r\n").into_bytes(),
         Req::X => b"BAD\r\n\r\n".to_vec(),
+        Req::Z(n) => { let mut v = format!("POST /r{idx} HTTP/1.1\r\ntransfer-encoding: gzip\r\ncontent-length: {n}\r\n\r\n").into_bytes(); v.extend(body_bytes(n, idx)); v }
         Req::T(n) => { let mut v = format!("POST /r{idx} HTTP/1.1\r\ncontent-length: {n}\r\n\r\n").into_bytes(); v.extend(body_bytes(n.saturating_sub(1), idx)); v }
     }
 }
@@ -79,6 +80,8 @@ impl Model {
                     Req::S(n) | Req::E(n) | Req::T(n) => { if n > 0 { self.rs = RS::Body { len: Some(n as u64), expect: matches!(r, Req::E(_)), coded: false } } Out::Ok }
                     Req::U(_) => { self.rs = RS::Body { len: None, expect: false, coded: false }; Out::Ok }
                     Req::C => { self.rs = RS::Body { len: None, expect: false, coded: true }; Out::Ok }
+                    // a coded body is refused when it is read, whatever length was declared with it
+                    Req::Z(n) => { if n > 0 { self.rs = RS::Body { len: Some(n as u64), expect: false, coded: true } } Out::Ok }
                     Req::X => { self.stream_dead = true; Out::Err("MalformedRequestLine") }
                 }
             }
@@ -120,14 +123,14 @@ fn err_name(e: &HttpError) -> &'static str {
     }
 }
 fn show(reqs: &[Req], ops: &[Op]) -> String {
-    let r: Vec<String> = reqs.iter().map(|r| match r { Req::G => "G".into(), Req::S(n) => format!("S{n}"), Req::E(n) => format!("E{n}"), Req::U(n) => format!("U{n}"), Req::C => "C".into(), Req::X => "X".into(), Req::T(n) => format!("T{n}") }).collect();
+    let r: Vec<String> = reqs.iter().map(|r| match r { Req::G => "G".into(), Req::S(n) => format!("S{n}"), Req::E(n) => format!("E{n}"), Req::U(n) => format!("U{n}"), Req::C => "C".into(), Req::X => "X".into(), Req::T(n) => format!("T{n}"), Req::Z(n) => format!("Z{n}") }).collect();
     let o: Vec<String> = ops.iter().map(|o| match o { Op::RR => "RR".into(), Op::BV => "BV".into(), Op::BF(m) => format!("BF{m}"), Op::WC => "WC".into(), Op::WR(c) => format!("WR{c}"), Op::SW => "SW".into(), Op::WD(c) => format!("WD{c}") }).collect();
     format!("api reqs={} ops={}", r.join(","), o.join(","))
 }
 fn parse(w: &str) -> (Vec<Req>, Vec<Op>) {
     let rs = w.split("reqs=").nth(1).unwrap().split(' ').next().unwrap();
     let os = w.split("ops=").nth(1).unwrap().split(' ').next().unwrap();
-    let reqs = rs.split(',').filter(|s| !s.is_empty()).map(|t| match &t[..1] { "G" => Req::G, "S" => Req::S(t[1..].parse().unwrap()), "E" => Req::E(t[1..].parse().unwrap()), "U" => Req::U(t[1..].parse().unwrap()), "T" => Req::T(t[1..].parse().unwrap()), "C" => Req::C, _ => Req::X }).collect();
+    let reqs = rs.split(',').filter(|s| !s.is_empty()).map(|t| match &t[..1] { "G" => Req::G, "S" => Req::S(t[1..].parse().unwrap()), "E" => Req::E(t[1..].parse().unwrap()), "U" => Req::U(t[1..].parse().unwrap()), "T" => Req::T(t[1..].parse().unwrap()), "Z" => Req::Z(t[1..].parse().unwrap()), "C" => Req::C, _ => Req::X }).collect();
     let ops = os.split(',').filter(|s| !s.is_empty()).map(|t| if t == "RR" { Op::RR } else if t == "BV" { Op::BV } else if t == "WC" { Op::WC } else if t == "SW" { Op::SW } else if let Some(m) = t.strip_prefix("BF") { Op::BF(m.parse().unwrap()) } else if let Some(m) = t.strip_prefix("WD") { Op::WD(m.parse().unwrap()) } else { Op::WR(t[2..].parse().unwrap()) }).collect();
     (reqs, ops)
 }
@@ -197,7 +200,7 @@ fn main() {
     }
     let thorough = args.iter().any(|a| a == "--thorough");
     let alphabet = [Op::RR, Op::BV, Op::BF(2), Op::BF(1000), Op::WC, Op::WR(100), Op::WR(200), Op::WR(500), Op::SW, Op::WD(503)];
-    let req_lists: Vec<Vec<Req>> = vec![vec![], vec![Req::G], vec![Req::G, Req::G], vec![Req::S(3), Req::G], vec![Req::E(3), Req::G], vec![Req::U(5)], vec![Req::C], vec![Req::S(5)], vec![Req::E(4), Req::S(3)], vec![Req::X], vec![Req::G, Req::U(3)], vec![Req::S(3)], vec![Req::T(4)], vec![Req::G, Req::T(1)]];
+    let req_lists: Vec<Vec<Req>> = vec![vec![], vec![Req::G], vec![Req::G, Req::G], vec![Req::S(3), Req::G], vec![Req::E(3), Req::G], vec![Req::U(5)], vec![Req::C], vec![Req::S(5)], vec![Req::E(4), Req::S(3)], vec![Req::X], vec![Req::G, Req::U(3)], vec![Req::S(3)], vec![Req::T(4)], vec![Req::G, Req::T(1)], vec![Req::Z(3), Req::G]];
     let mut n = 0u64; let mut found: Vec<String> = Vec::new();
     let depth = if thorough { 4 } else { 3 };
     for reqs in &req_lists {
